@@ -98,6 +98,19 @@ def build(fp, inst, G=None, extra_opts=None):
 def cyc_graph(rng, max_nodes=6, min_edges=3):
     """digraph (cycles allowed) where every edge lies on a walk from a node without in-edges to one
     without out-edges"""
+    if max_nodes >= 5 and min_edges <= 6 and rng.random() < 0.1:
+        # "flower": several edge-disjoint closed walks through ONE vertex; the edge leaving the vertex towards the sink is
+        # inserted last (a greedy trail pops it first and every closed walk has to be spliced in afterwards)
+        names = gen.node_names(rng, max_nodes)
+        s_, v, t = names[0], names[1], names[2]
+        petals = names[3:3 + rng.randint(2, max(2, min(3, max_nodes - 3)))]
+        edges = [(s_, v)]
+        for p_ in petals:
+            edges += [(v, p_), (p_, v)]
+        if rng.random() < 0.3:
+            edges.append((v, v))
+        edges.append((v, t))
+        return [s_, v] + petals + [t], edges
     for _ in range(200):
         nodes, edges = gen.digraph_scc(rng, max_nodes=max_nodes)
         if len(edges) < min_edges:
